@@ -71,8 +71,10 @@ class InjectedDelay(DelayModel):
         self.calls = []
 
     def generate_delay(self, task_runtime, n=100):
-        self.calls.append((task_runtime, task_runtime + self.extra))
-        return task_runtime + self.extra
+        # same contract as the real model (property C15): a zero runtime is returned unchanged
+        ret = task_runtime + (self.extra if task_runtime > 0 else 0)
+        self.calls.append((task_runtime, ret))
+        return ret
 
 
 class RecordingDelay(object):
